@@ -2,6 +2,7 @@ package base
 
 import (
 	"slices"
+	"strings"
 )
 
 type Sig struct {
@@ -53,6 +54,36 @@ var MethodCallPoint = make(map[string][]CallPoint)
 var MethodCalleePoint = make(map[string][]CalleePoint)
 var SpecialCodeComments = []SpecialCodeComment{}
 
+// compareSigTie orders signatures that share method, class and frame (static and
+// instance variants, overloads), so that sorted output never depends on map order.
+func compareSigTie(a, b Sig) int {
+	if a.IsStatic != b.IsStatic {
+		if !a.IsStatic {
+			return -1
+		}
+		return 1
+	}
+	if c := strings.Compare(a.Detail, b.Detail); c != 0 {
+		return c
+	}
+	if c := strings.Compare(a.FileName, b.FileName); c != 0 {
+		return c
+	}
+	if a.Row != b.Row {
+		if a.Row < b.Row {
+			return -1
+		}
+		return 1
+	}
+	if a.IsPrivate != b.IsPrivate {
+		if !a.IsPrivate {
+			return -1
+		}
+		return 1
+	}
+	return strings.Compare(a.Document, b.Document)
+}
+
 func GetSortedTSignatures() []Sig {
 	sortedSignatures := make([]Sig, 0, len(TSignatures))
 
@@ -79,7 +110,7 @@ func GetSortedTSignatures() []Sig {
 		if a.Frame > b.Frame {
 			return 1
 		}
-		return 0
+		return compareSigTie(a, b)
 	})
 
 	return sortedSignatures
@@ -111,7 +142,7 @@ func GetSortedTSignaturesByClass() []Sig {
 		if a.Frame > b.Frame {
 			return 1
 		}
-		return 0
+		return compareSigTie(a, b)
 	})
 
 	return sortedSignatures
